@@ -204,6 +204,8 @@ class CallMixin:
                     h = getattr(self, "spec_" + d, None)
                     if h is not None:
                         return h(node, st, ctx)
+                    if d in self.reg.specbuiltins:
+                        return self.reg.specbuiltins[d](self, node, st, ctx)
                     if d in self.reg.specfuns:
                         return self.apply_specfun(d, [self.ev(a, st, ctx) for a in node.args], st)
                 h = getattr(self, "bi_" + d.replace(".", "_"), None)
